@@ -14,6 +14,15 @@ func updatePackageInfoFromArgs(packageInfo *packaging.PackageInfo, configArgs ma
 	// a new instance for every call: in watch mode this runs once per regeneration, and the settings of a
 	// section that has since been removed from _package.yml must not carry over
 	k := koanf.New(".")
+
+	// a version entry that refers to the package itself (the main package has a version label) makes the
+	// structure cyclic: take these back references out while it goes through koanf
+	for i, ver := range packageInfo.Versions {
+		if ver.Package == packageInfo {
+			ver.Package = nil
+			defer func() { packageInfo.Versions[i].Package = packageInfo }()
+		}
+	}
 	if err := k.Load(structs.Provider(packageInfo, "yaml"), nil); err != nil {
 		log.Panic().Msgf("error loading package info: %v", err)
 	}
